@@ -210,6 +210,11 @@ impl Model {
             })
         };
         let target = cand(false, true).or_else(|| cand(true, true));
+        // range-filling sockets are kept as a set and never read: a datagram for one of them is
+        // simply not observed
+        if target.is_none() && self.hosts[dh].bulk.iter().any(|b| b.proto == Proto::Udp && b.ports.contains(&dst.port()) && (b.ip == dst.ip() || b.ip.is_unspecified())) {
+            return UdpExp::Exactly(None);
+        }
         let Some(t) = target else {
             // a wildcard of the other family on that port: dual-stack behaviour is not specified
             if let Some(x) = cand(true, false) {
@@ -272,6 +277,10 @@ impl Model {
             return SynExp::Listener(dh, l.id);
         }
         if find(true, false).is_some() {
+            return SynExp::Unjudged;
+        }
+        // range-filling listeners (kept as a set, never accepted from) are not probed
+        if self.hosts[dh].bulk.iter().any(|b| b.proto == Proto::Tcp && b.ports.contains(&dst.port()) && (b.ip == dst.ip() || b.ip.is_unspecified())) {
             return SynExp::Unjudged;
         }
         SynExp::Refused
